@@ -18,8 +18,10 @@ EXTENDS Naturals, Sequences, FiniteSets, TLC
 CONSTANTS SlotsPerPage, Pages, NKeys, MaxBatch,
           Flushers,     \* 1 or 2: with two flushers the tombstones of one batch are appended flusher by flusher
                         \* (hash mod 2), in either order - the log is then not in sequence order
-          TailRule      \* "drop": open puts the tail at the largest drop of the sequences round the ring (the code
-                        \* since fix F15); "max": right after the newest tombstone (the code as found)
+          TailRule      \* "max": open puts the tail right after the newest tombstone (what the code does; with two
+                        \* flushers this loses tombstones: finding F15, open); "drop": at the largest drop of the
+                        \* sequences round the ring (a repair that was tried and withdrawn: TLC shows it wrong for a
+                        \* nearly empty log with small sequences, and large interleaved batches defeat it after a wrap)
 
 VARIABLES
     ring,       \* [0 .. Cap-1 -> <<hash, seq>>]   durable slots, <<0,0>> = empty
